@@ -3,6 +3,8 @@ import AutoVerif.Spec.C01
 import AutoVerif.Spec.C05
 import AutoVerif.Spec.C09
 import AutoVerif.Spec.C04
+import AutoVerif.Model.Net
+import AutoVerif.Drv.C06
 open Lean AutoVerif.Codec
 namespace AutoVerif.C09
 open AutoVerif.Outcome AutoVerif.Round
@@ -26,6 +28,147 @@ def decodeTrace (j : Json) : R Trace := do
       pure ({ round := ← natF e "round", node := ← natF e "node", wid := ← strF e "wid", checkBlock := ← natF e "cb" } : EvSeen)) (fieldD j "events" .null)
   pure { events := events, n := ← natF j "n", f := ← natF j "f", honest := ← natList (fieldD j "honest" .null),
          correct := ← natList (fieldD j "correct" .null), pipeline := pipeline, rounds := rounds, reports := reports, queries := queries }
+
+
+/-! ### replay of a recorded network run on the network model (`Model/Net`)
+
+The trace carries (since the model exists) the run as one totally ordered list of operations with virtual times:
+rounds, every `ShouldAccept…` / `ShouldTransmit…` call of every member with its answer, every answer of a member's
+transmit event provider (= one `checkEvents` run of its coordinator) and every restart.  The list is replayed through
+`Net.step` — the function `Net.run` folds, i.e. after `k` operations the state is `Net.run cfg` of the first `k`
+steps — and compared with the implementation:
+
+  * round: the model's agreed performables and reports (`Outcome.outcome` ∘ `C04.reports` inside `Net.step`) against
+    the recorded ones.  Only the performables of the observations are recorded, so an observation the real
+    `ValidateObservation` rejected enters as undecodable (`none`); the keyed shuffle is not reproducible in Lean and is
+    supplied from the implementation's result (`key` = position in the recorded agreed list), as is the tie-break
+    between two quorum results for one unit of work (`uid` orders recorded-agreed results first).  The per-round
+    cases (`kind = round`) compare the outcome with the real shuffle keys and `UniqueID`s.
+  * accept / transmit: the model's answer for that member and report against the recorded answer.
+
+The members' clocks are the recorded virtual times (`tick` before every operation of a member). -/
+
+structure NetOp where
+  time : Nat
+  kind : String
+  node : Nat
+  report : Nat
+  ans : Bool
+  evs : List C06.Event
+
+def decodeOps (tj : Json) : R (List NetOp) :=
+  listOf (fun o => do
+    pure ({ time := ← natF o "at", kind := ← strF o "k", node := ← natF o "node", report := ← natF o "report",
+            ans := ← boolF o "ans", evs := ← listOf C06.eventOf (fieldD o "evs" .null) } : NetOp)) (fieldD tj "ops" .null)
+
+/-- `simutil.GetUpkeepType` on the hex rendering of an upkeep id: bytes 4..14 zero ⇒ byte 15 is the type -/
+def utgHex (uid : String) : UpkeepType :=
+  let cs := uid.toList
+  if ((cs.drop 8).take 22).all (· == '0') then
+    match (cs.drop 30).take 2 with
+    | ['0', '0'] => .condition
+    | ['0', '1'] => .log
+    | _ => .other
+  else .condition
+
+def renderTrigger (t : Trigger) : String :=
+  s!"{t.blockNumber}/{t.blockHash}/" ++ (match t.ext with
+    | some e => s!"{e.txHash}.{e.index}.{e.blockHash}.{e.blockNumber}"
+    | none => "-")
+
+/-- injective rendering of a check result -/
+def renderResult (r : CheckResult) : String :=
+  s!"{r.workID}|{r.upkeepID}|{renderTrigger r.trigger}|{r.gas}|{r.performData}|{r.fastGasWei}|{r.linkNative}|{r.pes}|{r.retryable}|{r.eligible}|{r.reason}"
+
+def padNat (n : Nat) : String :=
+  let s := toString n
+  "".pushn '0' (8 - s.length) ++ s
+
+structure Replay where
+  net : Net.Net := Net.Net.init
+  refs : Std.HashMap Nat Net.Ref := {}
+  modelRounds : Nat := 0
+  errs : List String := []
+  nQueries : Nat := 0
+  nPolls : Nat := 0
+  nEvents : Nat := 0
+
+def Replay.err (rp : Replay) (m : String) : Replay := { rp with errs := if rp.errs.length < 5 then rp.errs ++ [m] else rp.errs }
+
+/-- bring member `i`'s clock to the recorded time -/
+def Replay.tick (cfg : Net.Cfg) (rp : Replay) (i tm : Nat) : Replay :=
+  let now := (rp.net.nodes i).st.now
+  if tm > now then { rp with net := Net.step cfg rp.net (.tick i (tm - now)) }
+  else if tm < now then rp.err s!"member {i}: recorded time {tm} before the member's clock {now}"
+  else rp
+
+def replayOp (cfg : Net.Cfg) (t : Trace) (rp : Replay) (op : NetOp) : Replay :=
+  match op.kind with
+  | "round" =>
+    match t.rounds[op.report]? with
+    | none => rp.err s!"round {op.report} not in the trace"
+    | some rd =>
+      let idx : Std.HashMap String Nat := (rd.agreed.zipIdx).foldl (fun m (r, i) => m.insert r.workID i) {}
+      let key : String → String := fun w => match idx.get? w with | some i => padNat i | none => "~" ++ w
+      let aobs : Net.AttrObs := rd.obs.map fun o =>
+        (o.oracle, if o.valid then some { performable := o.perf, proposals := [], blockHistory := [] } else none)
+      let os := Outcome.validObs (cfg.ctx key) cfg.lim (aobs.map (·.2))
+      let net := Net.step cfg rp.net (.round op.report key aobs (Outcome.resKeys (cfg.ctx key) os) [])
+      let rp := { rp with net := net, modelRounds := rp.modelRounds + 1 }
+      match net.rounds.getLast? with
+      | none => rp.err "round step appended nothing"
+      | some mr =>
+        let rp := if mr.out.agreed = rd.agreed then rp
+          else rp.err s!"round {op.report}: model agreed {mr.out.agreed.map showResult} impl {rd.agreed.map showResult}"
+        let implReps := rd.reports.map fun id => (reportOf t id).map (·.upkeeps)
+        let rp := if !op.ans || implReps = mr.reports.map some then rp
+          else rp.err s!"round {op.report}: model reports {mr.reports.map (·.map showResult)} impl {implReps.map (fun r => (r.getD []).map showResult)}"
+        let mi := rp.modelRounds - 1
+        { rp with refs := (rd.reports.zipIdx).foldl (fun m (id, j) => m.insert id ⟨mi, j⟩) rp.refs }
+  | "restart" =>
+    let rp := rp.tick cfg op.node op.time
+    { rp with net := Net.step cfg rp.net (.restart op.node) }
+  | "poll" =>
+    let rp := rp.tick cfg op.node op.time
+    { rp with net := Net.step cfg rp.net (.events op.node op.evs), nPolls := rp.nPolls + 1, nEvents := rp.nEvents + op.evs.length }
+  | k =>
+    if k != "accept" && k != "transmit" then rp.err s!"unknown operation {k}" else
+    match rp.refs.get? op.report with
+    | none => rp.err s!"{k} of report {op.report} on member {op.node}: the report is not in the model's log"
+    | some ref =>
+      let rp := rp.tick cfg op.node op.time
+      let n0 := rp.net.answers.length
+      let net := Net.step cfg rp.net (if k == "accept" then .accept op.node ref else .transmitQuery op.node ref)
+      let rp := { rp with net := net, nQueries := rp.nQueries + 1 }
+      let got : Option Bool := if net.answers.length = n0 + 1 then
+          (match net.answers.getLast? with
+           | some (.accept _ _ a) => some a
+           | some (.transmit _ _ a) => some a
+           | none => none)
+        else none
+      match got with
+      | none => rp.err s!"{k} of report {op.report} on member {op.node}: the model logged no answer"
+      | some a =>
+        if a = op.ans then rp
+        else rp.err s!"{k} of report {op.report} on member {op.node} at {op.time} ns: model answers {a}, implementation {op.ans}"
+
+def replayNet (tj : Json) (t : Trace) : R (Option Replay) := do
+  let ops ← decodeOps tj
+  if ops.isEmpty then return none
+  let window ← asNat (fieldD tj "windowNs" (.num 0))
+  let minConf ← asInt (fieldD tj "minConf" (.num 0))
+  let batch ← asInt (fieldD tj "batch" (.num 1))
+  -- work-id generator: a table of every (upkeep id, trigger) ↦ work id occurring in a validated observation or a report
+  let allRes : List CheckResult := (t.rounds.flatMap fun rd => (rd.obs.filter (·.valid)).flatMap (·.perf)) ++ t.reports.flatMap (·.upkeeps)
+  let wgT : Std.HashMap String String := allRes.foldl (fun m r => m.insert (r.upkeepID ++ "|" ++ renderTrigger r.trigger) r.workID) {}
+  let agreedSet : Std.HashMap String Unit := (t.rounds.flatMap (·.agreed)).foldl (fun m r => m.insert (renderResult r) ()) {}
+  let cfg : Net.Cfg :=
+    { F := t.f, utg := utgHex,
+      wg := fun u tr => (wgT.get? (u ++ "|" ++ renderTrigger tr)).getD "\x00unknown",
+      uid := fun r => let s := renderResult r; (if agreedSet.contains s then "0" else "1") ++ s,
+      lim := limits, rep := C04.ensureDefaults batch 0 0,
+      coord := { minConf := minConf, window := window } }
+  pure (some (ops.foldl (replayOp cfg t) {}))
 
 def handleRound (input impl : Json) : R Reply := do
   let rd ← decode input
@@ -63,6 +206,12 @@ def handle (input impl : Json) : R Reply := do
           pure (acc ++ rs.map (fun r => (k.toNat!, r)))
       | _ => pure []
     let si := spec t restarts
+    let rp ← replayNet tj t
+    let (agree, diff, rtags, rkey) := match rp with
+      | none => (true, "", ["no-replay-info"], "")
+      | some rp => (rp.errs.isEmpty, "; ".intercalate rp.errs,
+          ["net-replay"] ++ (if rp.nEvents > 0 then ["net-replay-events"] else []),
+          s!"-{rp.modelRounds}-{rp.nQueries}-{rp.nPolls}-{rp.nEvents}")
     let nTrue := (t.queries.filter (fun q => !q.isAccept && q.transmit)).length
     let tags :=
       (if t.honest.length < t.n then ["byzantine-member"] else []) ++
@@ -71,8 +220,8 @@ def handle (input impl : Json) : R Reply := do
       (if t.rounds.any (fun r => r.obs.any (fun o => !o.valid)) then ["invalid-observation"] else []) ++
       (if t.reports.any (fun r => decide (r.upkeeps.length > 1)) then ["multi-upkeep-report"] else []) ++
       (if decide (nTrue > 0) then ["transmit-willing"] else [])
-    pure { agree := true, specModel := true, specImpl := si, fail := if si then "" else explain t restarts,
-           nontrivial := decide (t.reports.length ≥ 2 ∧ nTrue ≥ 2), tags := "net-trace" :: tags,
-           key := s!"{t.n}-{t.f}-{t.rounds.length}-{t.reports.length}-{t.pipeline.length}-{t.queries.length}" }
+    pure { agree := agree, diff := diff, specModel := true, specImpl := si, fail := if si then "" else explain t restarts,
+           nontrivial := decide (t.reports.length ≥ 2 ∧ nTrue ≥ 2), tags := "net-trace" :: (tags ++ rtags),
+           key := s!"{t.n}-{t.f}-{t.rounds.length}-{t.reports.length}-{t.pipeline.length}-{t.queries.length}{rkey}" }
 
 end AutoVerif.C09
